@@ -163,6 +163,24 @@ func init() {
 		*c = Struct{a[0], a[1], a[2]}
 		return Iface{T: types.NewPointer(t), V: Ptr{P: c}}
 	})
+	// math/rand.Intn: an arbitrary index in range
+	randIntn := func(e *Engine, fn *ssa.Function, a []Value, s ssa.Instruction) Value {
+		n := e.concreteInt(a[len(a)-1], s, "rand bound")
+		if n <= 0 {
+			e.goPanicf(s, "invalid argument to Intn")
+		}
+		e.usedFresh = true
+		return mkBV(64, uint64(e.chooseN(int(n))))
+	}
+	reg("math/rand.Intn", randIntn)
+	reg("(*math/rand.Rand).Intn", randIntn)
+	reg("math/rand.Seed", noopv)
+	reg("time.Now", func(e *Engine, fn *ssa.Function, a []Value, s ssa.Instruction) Value {
+		return zero(e.namedType("time", "Time"))
+	})
+	reg("(time.Time).UnixNano", func(e *Engine, fn *ssa.Function, a []Value, s ssa.Instruction) Value {
+		return e.freshBV("now", 64)
+	})
 	regVerif("BodyReads", func(e *Engine, fn *ssa.Function, a []Value, s ssa.Instruction) Value {
 		n, _ := e.side["bodyreads"].(int)
 		return mkBV(64, uint64(n))
